@@ -596,6 +596,9 @@ func impPassOf(out string) string {
 	if strings.HasPrefix(b, "Exp_") || b == "ExpAll" {
 		return "Exp"
 	}
+	if strings.HasPrefix(b, "KzgOpen_") {
+		return "KzgOpen"
+	}
 	return b
 }
 
@@ -609,10 +612,16 @@ func impPasses() []string {
 			res = append(res, p)
 		}
 	}
-	return res
+	return append(res, "KzgOpen") // impkzg.go: Gen/Imp/KzgOpen_<curve>.lean
 }
 
 func runImp() {
+	if impOnly == "" || impOnly == "KzgOpen" {
+		runKzgOpen() // impkzg.go
+		if impOnly != "" {
+			return
+		}
+	}
 	// Element.Exp of every field package (template-generated: the texts must be identical up to the package name, which the
 	// generated `rfl` lemmas of Gen/Imp/ExpAll.lean check)
 	targets := append([]impTarget{}, impTargets...)
